@@ -2,7 +2,7 @@
    The parser SV.OBU is written from the AV1 syntax (leb128, OBU header, complete sequence header with trailing
    bits, start of the frame header); check_packet is extracted and run on every packet the real encoder emits. *)
 From Coq Require Import ZArith List Bool.
-From SV Require Import Leb128 OBU Proofs_C02.
+From SV Require Import Leb128 Leb128C OBU Proofs_C02.
 Import ListNotations.
 Local Open Scope Z_scope.
 
@@ -23,3 +23,23 @@ Theorem c02_obu_framing : forall bs o rest, parse_obu bs = Some (o, rest) ->
   (forall tail, leb_dec 8 0 (o_sizebytes o ++ tail) = Some (o_size o, tail)) /\
   (1 <= length (o_sizebytes o) <= 8)%nat /\ (1 <= length (o_header o) <= 2)%nat.
 Proof. exact parse_obu_raw. Qed.
+
+(* ---- the library's own size-field routines (C-level models of Leb128C.v, tied to the C text by the correspondence run) ---- *)
+
+(* svt_aom_uleb_size_in_bytes: for every 64-bit value, the minimal number of 7-bit groups *)
+Theorem c02_c_uleb_size_minimal : forall v, 0 <= v < 2 ^ 64 ->
+  let s := c_uleb_size 10 v in 1 <= s <= 10 /\ v < 128 ^ s /\ (s = 1 \/ 128 ^ (s - 1) <= v).
+Proof. exact c_uleb_size_spec. Qed.
+
+(* svt_aom_uleb_encode refuses exactly the values of 2^56 and above and those that do not fit the space offered *)
+Theorem c02_c_uleb_encode_accepts_iff : forall v avail, 0 <= v < 2 ^ 64 ->
+  (c_uleb_encode v avail = None <-> (2 ^ 56 <= v \/ avail < c_uleb_size 10 v)).
+Proof. exact c_uleb_encode_accepts_iff. Qed.
+
+(* what svt_aom_uleb_encode writes is read back by dec_get_bits_leb128: value, length consumed and what follows *)
+Theorem c02_c_leb128_roundtrip : forall v avail rest, 0 <= v < 2 ^ 56 -> c_uleb_size 10 v <= avail ->
+  exists bytes, c_uleb_encode v avail = Some bytes /\
+                Z.of_nat (length bytes) = c_uleb_size 10 v /\ (length bytes <= 8)%nat /\
+                Forall (fun b => 0 <= b < 256) bytes /\
+                c_dec_leb128 (bytes ++ rest) = (v, Z.of_nat (length bytes), rest).
+Proof. exact c_leb128_roundtrip. Qed.
